@@ -32,3 +32,21 @@ pub fn parse_stub(bytes: &[u8]) -> (Result<ProguardRecord, ParseError>, &[u8]) {
     let item: Item = unsafe { (*RECS.add(idx)).clone() };
     (item, &bytes[1..])
 }
+
+/// Source-level injection point (inserted by tools/instrument.py at the top of
+/// `ProguardRecordIter::next` under cfg(kani)): when a stream is installed,
+/// serve the next injected item instead of parsing.
+pub fn active() -> bool {
+    unsafe { !RECS.is_null() }
+}
+
+pub fn next_item<'s>(slice: &mut &'s [u8]) -> Option<Result<ProguardRecord<'s>, ParseError<'s>>> {
+    if slice.is_empty() {
+        return None;
+    }
+    let total = unsafe { TOTAL };
+    let idx = total - slice.len();
+    let item: Item = unsafe { (*RECS.add(idx)).clone() };
+    *slice = &slice[1..];
+    Some(item)
+}
